@@ -349,6 +349,7 @@ def toStringS (a : Option Val) : R Val :=
     | some (.bool b) => .ok (.str (if b then "true" else "false"))
     | some (.int n) => .ok (.str (toString n))
     | some (.str s) => .ok (.str s)
+    | some (.date u none) => .ok (.str (isoZ u))     -- UTC, `YYYY-MM-DDTHH:MM:SS.mmmZ`
     | _ => unmodelled
 
 /-! ### `$sum $avg $min $max` on evaluated operands -/
